@@ -48,6 +48,10 @@ func runC04(c *Ctx) {
 	info := r.FI.Pkg.TypesInfo
 	c.Floor("C04.1-create-sites", len(r.Creates), 1)
 	c.slotSetIsReadOnly(r)
+	// "only at vacant desired ordinals": vacant is judged on the pods the reconcile is handed, so it is handed every pod of
+	// the set the store holds -- finished and terminating ones too -- straight from the full listing through the claim
+	// (the listing rule of C10.1, as a clause of this property)
+	c.withOnly(map[string]string{"C10.1-claim-sees-every-pod": "C04.3-the-reconcile-sees-every-pod-of-the-set"}, nil, "C04.3-pod-listing", 1, c.claimConstruction)
 	c.everyObservedPodIsPlaced(r, "C04.5-every-observed-pod-is-placed")
 	// the desired set the reconcile works on is the helper's: its walk over the delete slots (C01.3) decides
 	// which ordinals are wanted and which are condemned
